@@ -36,6 +36,9 @@ def encode_array(obj):
     def default_encode(obj):
         return obj.tolist(), {}
 
+    # in-memory data may also be a plain (nested) list
+    obj = np.asarray(obj)
+
     encoders = {
         "m": encode_timedelta,
         "M": encode_datetime,
